@@ -27,6 +27,9 @@
 #ifndef NPK
 #define NPK 2
 #endif
+#ifndef MAXWANT
+#define MAXWANT 36	/* with DL: upper bound of the user bytes offered per packet */
+#endif
 #ifndef DEP
 #define DEP 0		/* IAL bit 3 "dependent": concrete, it is part of the byte the demux derives the layout from */
 #endif
@@ -148,9 +151,6 @@ static void read_slot(struct slot_in *s)
 /* assumptions that keep the sender inside the claim */
 static void slot_claim(const struct slot_in *s, unsigned n)
 {
-#ifdef EXP_NODUMMY
-  { unsigned q; for (q = 0; q < 36; q++) V_ASSUME(s->user[q] != 0 && s->user[q] != 0xFF); }
-#endif
   /* reading dependent corner, outside the claim: with CI and DL both transmitted the DL byte sits between CI and
      the user data; whether a 0x00/0xFF run continues across it is not settled by the library's comments */
   if (H_CI && H_DL && (s->ci == 0x00 || s->ci == 0xFF) && n >= 1) V_ASSUME(s->user[0] != s->ci);
@@ -186,8 +186,8 @@ static void compare_log(void)
 
 /* ---- 1. SEQ with the reference sender ----------------------------------
  * NPK slots.  Each slot: an IDL-A packet of the grid's layout for a symbolic channel/address (ours or not),
- * optionally preceded by an unrelated Teletext packet.  CI values are symbolic per packet (a value that is not the successor of
- * the previous delivered one IS a continuity gap = dropped packets).  One optional fault in one slot: a symbolic
+ * optionally preceded by an unrelated Teletext packet.  CI values are symbolic per packet (a value that is not the
+ * successor of the previous delivered one IS a continuity gap = dropped packets).  One optional fault in one slot: a symbolic
  * non-zero XOR mask on one symbolic byte of the check word protected part such that the (bit serial) check fails. */
 V_HARNESS(h_idl_a_seq)
 {
@@ -204,7 +204,7 @@ V_HARNESS(h_idl_a_seq)
     read_slot(&S);
     if (H_RI) V_ASSUME(S.ri == 0x00);			/* first and only transmission; repeats: h_idl_a_repeat */
     if (!H_DL) S.want = 36;
-    V_ASSUME(S.want <= 36);
+    V_ASSUME(S.want <= MAXWANT);
     match = (S.ch == chan && S.a == addr);
     /* unrelated traffic first (optional): a Teletext packet that is not packet 30/31 on any magazine, or an IDL
        format B packet on our channel; addressing bytes concrete (CBMC rule: first dispatch byte), rest arbitrary */
@@ -286,7 +286,7 @@ V_HARNESS(h_idl_a_first_flags)
   read_slot(&S);
   if (H_RI) V_ASSUME(S.ri == 0x00);
   if (!H_DL) S.want = 36;
-  V_ASSUME(S.want <= 36);
+  V_ASSUME(S.want <= MAXWANT);
   n = idl_a_send(pk, chan, S.dep, addr, S.ri, S.ci, S.user, S.want, S.fill);
   slot_claim(&S, n);
   res = idl_a_residue(pk);
@@ -313,7 +313,7 @@ V_HARNESS(h_idl_a_hamming)
   read_slot(&S);
   if (H_RI) V_ASSUME(S.ri == 0x00);
   if (!H_DL) S.want = 36;
-  V_ASSUME(S.want <= 36);
+  V_ASSUME(S.want <= MAXWANT);
   n = idl_a_send(pk, chan, S.dep, addr, S.ri, S.ci, S.user, S.want, S.fill);
   slot_claim(&S, n);
   res = idl_a_residue(pk);
@@ -360,7 +360,7 @@ V_HARNESS(h_idl_a_repeat)
   V_ASSERT(r, "idl_init_ok");
   read_slot(&A); read_slot(&B);
   if (!H_DL) { A.want = 36; B.want = 36; }
-  V_ASSUME(A.want <= 36 && B.want <= 36);
+  V_ASSUME(A.want <= MAXWANT && B.want <= MAXWANT);
   B.ci = (A.ci + 1) & 0xFF;					/* consecutive packets of the service */
   for (k = 0; k < 3; k++) { st[k] = in_u8() % 3; f_pos[k] = in_u8(); f_mask[k] = in_u8(); }	/* 0 clean 1 damaged 2 lost */
   for (k = 0; k < 3; k++) {
@@ -398,3 +398,40 @@ V_HARNESS(h_idl_a_repeat)
   V_END();
 }
 #endif
+
+/* ---- 6. the flags argument: continuity gap / check word failure -> DATA_LOST on the NEXT delivery; DEPENDENT ------
+ * Three packets for our channel/address, CI symbolic per packet, payload concrete except its first byte (the data
+ * path is idl_a_seq1's subject), each packet optionally damaged in its check word (symbolic non-zero mask). */
+V_HARNESS(h_idl_a_gap_flags)
+{
+  unsigned chan, addr, k, i; int m_ci = -1, m_lost = 0; uint8_t pk[42], user[36], fill[36]; vbi_bool r;
+  V_INIT();
+  chan = in_u8() & 15; addr = in_u32() & ADDRMASK;
+  r = _vbi_idl_demux_init(&DX, _VBI_IDL_FORMAT_A, chan, addr, idl_cb, &cb_n);
+  V_ASSERT(r, "idl_init_ok");
+  for (k = 0; k < 3; k++) {
+    unsigned ci = in_u8(), mask = in_u8(), n, res; int ok; uint8_t first = in_u8();
+    for (i = 0; i < 36; i++) { user[i] = (uint8_t) (0x41 + i); fill[i] = 0x55; }
+    V_ASSUME(first != 0x00 && first != 0xFF);			/* no dummy byte business here */
+    user[0] = first;
+    n = idl_a_send(pk, chan, DEP, addr, 0x00, ci, user, H_DL ? 3 : 36, fill);
+    pk[40] ^= (uint8_t) mask;
+    res = idl_a_residue(pk); ok = RES_OK(res);
+    if (mask) V_ASSUME(!ok); else V_ASSERT(ok, "ref_sender_receiver_agree");
+    r = idl_feed(pk, ok, res);
+    if (mask) {
+      V_ASSERT(!r && cb_n == exp_n, "idl_crc_failure_not_delivered");
+      m_ci = -1; m_lost = 1;
+    } else {
+      unsigned fl = ((m_lost || (m_ci >= 0 && m_ci != (int) ci)) ? VBI_IDL_DATA_LOST : 0) | (DEP ? VBI_IDL_DEPENDENT : 0);
+      V_ASSERT(r, "idl_good_packet_returns_true");
+      expect_delivery(user, 1, fl);				/* compare length 1: the symbolic byte */
+      if (exp_n <= LOGMAX) E[exp_n - 1].n = n;
+      if ((fl & VBI_IDL_DATA_LOST) && m_lost) V_REACH("lost_after_crc");
+      if ((fl & VBI_IDL_DATA_LOST) && !m_lost) V_REACH("lost_after_gap");
+      m_lost = 0; m_ci = (int) ((ci + 1) & 0xFF);
+    }
+  }
+  compare_log();
+  V_END();
+}
